@@ -26,7 +26,19 @@ func (g *Gen) OlvmStory(id string, blocks int) *Scenario {
 		t := TxReq{Kind: "OLVM", A: a, Gas: gas, Price: price, Class: class, Signers: signers, Memo: memo}
 		evs = append(evs, ev{h, STx{Req: t, Path: path}})
 	}
-	eoas := g.G.EthAccounts
+	eoas := g.G.EthAccounts[:3]
+	// e4 spends everything it has in one transfer (gas limit = the 21000 a plain transfer uses), is paid again by a native
+	// account and goes on with its next sequence number: an account at balance zero keeps its record
+	if len(g.G.EthAccounts) > 3 && g.R.Intn(2) == 0 {
+		d := g.G.EthAccounts[3]
+		h0 := 3 + g.R.Intn(3)
+		add(h0, A{"from": d, "to": "e1", "amt": g.G.Balance - 21000, "nonce": 0, "data": ""}, "honest", "", 21000, 1, nil, "")
+		t := TxReq{Kind: "SEND", A: A{"from": "a1", "to": d, "amt": 60000}}
+		if h0+2 <= blocks {
+			evs = append(evs, ev{h0 + 2, STx{Req: t, Path: "honest"}})
+		}
+		add(h0+4, A{"from": d, "to": "e2", "amt": 100, "nonce": 1, "data": ""}, "honest", "", 21000, 1, nil, "")
+	}
 	progs := []string{"store", "forward", "probe", "revert", "loop", "suicide", "toggle"}
 	deployed := map[string]string{} // program -> contract name
 	// deployments in the first blocks, sequence numbers as they come
